@@ -25,6 +25,10 @@ type Violation struct {
 type violationPanic struct{ v Violation }
 type harnessPanic struct{ msg string }
 
+// unjudgedPanic ends a run that reached a situation the engine cannot judge
+// either way (see Run.Unjudged).
+type unjudgedPanic struct{ why string }
+
 // Run is the context handed to an engine for one simulated execution.
 type Run struct {
 	Tape  *Tape
@@ -141,6 +145,13 @@ func (r *Run) FailOrKnown(code, sig, format string, args ...interface{}) {
 	panic(violationPanic{Violation{Code: code, Sig: sig, Msg: fmt.Sprintf(format, args...), Step: r.StepNo()}})
 }
 
+// Unjudged ends the run without a verdict: neither a violation nor a clean
+// run is claimed for what follows. It is counted (run_ended_unjudged) so that
+// the evidence shows how often it happened.
+func (r *Run) Unjudged(why string) {
+	panic(unjudgedPanic{why})
+}
+
 // Harness aborts the run because the simulator itself is confused. This is
 // never reported as a violation (exit 2).
 func (r *Run) Harness(format string, args ...interface{}) {
@@ -241,6 +252,9 @@ func Execute(fn func(*Run), tape *Tape, seed uint64, tier string) (out Outcome) 
 			out.Violation = &v
 		case harnessPanic:
 			out.HarnessErr = p.msg
+		case unjudgedPanic:
+			out.Stats["run_ended_unjudged"]++
+			out.Nontrivial = false
 		default:
 			// A panic that originates in lnd code is a violation (the
 			// properties say "never panics" for reload etc.); one that
